@@ -343,6 +343,7 @@ def run(ctx):
     ctx.check(o12, ok, key(f, "frame-order"), f.where(f.root), "per-frame order must be: mark bpidx_start; prune/exit; end_frame; null_prop; end_frame; word_trans")
     incs = [s for s in paths.field_stores(f, "fsg_search_s", "frame")]
     ctx.check(o12, len(incs) == 1 and incs[0]["op"] == "++" and paths.entry_must_pass(f, lambda e: e == incs[0]["node"]), key(f, "frame++"), f.where(f.root), "frame counter is not advanced exactly once per step")
+    extra_rules(ctx, P, fns)
 
 
 def _is_hmm_hist(g, s):
@@ -350,3 +351,65 @@ def _is_hmm_hist(g, s):
     b = g.strip(lhs["ch"][0])
     nd = g.nodes[b]
     return nd["k"] == "Member" and nd.get("rec") == "hmm_s" and nd["field"] == "history"
+
+
+def extra_rules(ctx, P, fns):
+    # ---- O13 no hypothesis instead of a stale / non-sentence one ---------------------------------
+    o13 = ctx.rule("GUARD.O13-no-exit-null", "when the exit search finds no entry (index <= 0) the hypothesis and segmentation functions return NULL; a hypothesis string is returned only after it was rebuilt in this call", floor=4)
+    for fname in ("fsg_search_hyp", "fsg_search_seg_iter"):
+        f = fns[fname]
+        sv = S(f)
+        noexit = lambda fn, c, pol: (lambda r: r is not None and r[1] == "<=" and r[2] == "0" and "fsg_search_find_exit(" in r[0])(paths.rel(fn, c, pol, calls=True) if False else _rel_calls(fn, c, pol))
+        rets = f.find("Return")
+        early = [r for r in rets if paths.guarded(f, r, noexit)]
+        ctx.check(o13, len(early) == 1, key(f, "no-exit-return"), f.where(f.root), "expected one return under `exit index <= 0` (found %d)" % len(early))
+        for r in early:
+            ctx.check(o13, paths.is_const(f, f.ch(r)[0], 0), key(f, "no-exit-null"), f.where(r), "with no surviving exit the function returns `%s` instead of NULL (a stale or partial non-sentence could be reported)" % f.canon(f.ch(r)[0], subst=False))
+        for r in rets:
+            if r in early or paths.is_const(f, f.ch(r)[0], 0):
+                continue
+            # every other return happens after the index > 0 test
+            ok = paths.guarded(f, r, lambda fn, c, pol: (lambda q: q is not None and q[1] == "<" and q[0] == "0" and "fsg_search_find_exit(" in q[2])(_rel_calls(fn, c, pol)))
+            ctx.check(o13, ok, key(f, "result-needs-exit:%s" % f.canon(f.ch(r)[0], subst=False)[:30]), f.where(r), "a result is returned without the dominating `exit index > 0` test")
+            rv = f.canon(f.ch(r)[0], subst=False)
+            if rv.endswith("->hyp_str"):
+                sts = [s["node"] for s in paths.stores(f) if s["field"] == "hyp_str"]
+                ctx.check(o13, paths.always_before(f, r, lambda e: e in sts), key(f, "hyp-rebuilt"), f.where(r), "the hypothesis string returned was not rebuilt in this call")
+    # ---- O14 index width ----------------------------------------------------------------------------------------
+    o14 = ctx.rule("TABLE.O14-index-width", "fields that carry history-table indices, frames and scores are at least 32 bits wide (the table can hold more than 2^15 entries in one utterance)", floor=5)
+    want = [("fsg_hist_entry_s", "pred"), ("fsg_hist_entry_s", "frame"), ("fsg_hist_entry_s", "score"), ("hmm_s", "history"), ("hmm_s", "out_history"), ("fsg_search_s", "bpidx_start")]
+    for rec, fld in want:
+        if rec not in P.records:
+            raise AnalysisIncomplete("anchor vanished: struct %s" % rec)
+        fl = {x[0]: x[2] for x in P.records[rec]["fields"]}
+        if fld not in fl:
+            raise AnalysisIncomplete("anchor vanished: field %s.%s" % (rec, fld))
+        base = re.sub(r"\s*\[.*$", "", fl[fld])
+        ctx.check(o14, base in ("int", "unsigned int", "long", "unsigned long", "long long"), "%s.%s" % (rec, fld), P.records[rec]["file"].replace("/repo/", ""), "`%s.%s` is declared `%s`: indices / frames / scores beyond 16 bits are truncated silently" % (rec, fld, fl[fld]), fl[fld])
+    for name in ("fsg_history_entry_add", "fsg_history_entry_get", "fsg_history_n_entries"):
+        g = P.fn(name, "fsg_history.c")
+        for pr in g.params:
+            if pr[0] in ("pred", "id", "frame", "score"):
+                ctx.check(o14, pr[3] in ("int", "long"), "%s(%s)" % (name, pr[0]), g.where(g.root), "parameter `%s` of %s is `%s`" % (pr[0], name, pr[3]))
+        if name != "fsg_history_entry_add":
+            ctx.check(o14, g.ret in ("int", "long", "struct fsg_hist_entry_s *"), "%s:ret" % name, g.where(g.root), "%s returns `%s`" % (name, g.ret))
+
+
+def _rel_calls(fn, cond, pol):
+    """like paths.rel, with provenance through the exit-search call"""
+    j = fn.strip(cond)
+    nd = fn.nodes[j]
+    if nd["k"] == "Un" and nd["op"] == "!":
+        return _rel_calls(fn, nd["ch"][0], not pol)
+    if nd["k"] != "Bin" or nd["op"] not in ("<", ">", "<=", ">=", "==", "!="):
+        return None
+    a = fn.canon(nd["ch"][0], calls=True)
+    b = fn.canon(nd["ch"][1], calls=True)
+    op = nd["op"]
+    if not pol:
+        op = {"<": ">=", ">": "<=", "<=": ">", ">=": "<", "==": "!=", "!=": "=="}[op]
+    if op == ">":
+        a, b, op = b, a, "<"
+    elif op == ">=":
+        a, b, op = b, a, "<="
+    return (a, op, b)
